@@ -4,14 +4,17 @@ LOCKS = ["myth_wsqueue_lock_lock/lock_contract", "myth_wsqueue_lock_unlock/unloc
          "verif_memmove/verif_memmove", "abort/abort_contract"]
 def seq_jobs(qmax, tiers, suffix, to):
     d = ["-DQMAX=%d" % qmax]
+    # the operations are loop free (memmove is a contract); the unwinding bound only matters if a change introduces a
+    # loop over the queue storage: in the quick tier (capacity 64) such a loop is then fully unwound and decided
+    uw = ["--unwind", str(qmax + 6), "--unwinding-assertions"] if qmax <= 64 else []
     n = "queue capacity symbolic in [2, %d]" % qmax
     return [
-      Job("c02.push" + suffix, TU, "h_push", replace=LOCKS, defines=d, tiers=tiers, fuc=["myth_queue_push"], timeout=to, mem_gb=12, note=n),
-      Job("c02.pop" + suffix, TU, "h_pop", replace=LOCKS, defines=d, tiers=tiers, fuc=["myth_queue_pop"], timeout=to, mem_gb=12, note=n),
-      Job("c02.take" + suffix, TU, "h_take", replace=LOCKS, defines=d, tiers=tiers, fuc=["myth_queue_take"], timeout=to, mem_gb=12, note=n),
-      Job("c02.peek" + suffix, TU, "h_peek", replace=LOCKS, defines=d, tiers=tiers, fuc=["myth_queue_peek"], timeout=to, mem_gb=12, note=n),
-      Job("c02.put" + suffix, TU, "h_put", replace=LOCKS, defines=d, tiers=tiers, fuc=["myth_queue_put"], timeout=to, mem_gb=12, note=n),
-      Job("c02.trypass" + suffix, TU, "h_trypass", replace=LOCKS, defines=d, tiers=tiers, fuc=["myth_queue_trypass"], timeout=to, mem_gb=12, note=n),
+      Job("c02.push" + suffix, TU, "h_push", replace=LOCKS, defines=d, cbmc=uw, tiers=tiers, fuc=["myth_queue_push"], timeout=to, mem_gb=12, note=n),
+      Job("c02.pop" + suffix, TU, "h_pop", replace=LOCKS, defines=d, cbmc=uw, tiers=tiers, fuc=["myth_queue_pop"], timeout=to, mem_gb=12, note=n),
+      Job("c02.take" + suffix, TU, "h_take", replace=LOCKS, defines=d, cbmc=uw, tiers=tiers, fuc=["myth_queue_take"], timeout=to, mem_gb=12, note=n),
+      Job("c02.peek" + suffix, TU, "h_peek", replace=LOCKS, defines=d, cbmc=uw, tiers=tiers, fuc=["myth_queue_peek"], timeout=to, mem_gb=12, note=n),
+      Job("c02.put" + suffix, TU, "h_put", replace=LOCKS, defines=d, cbmc=uw, tiers=tiers, fuc=["myth_queue_put"], timeout=to, mem_gb=12, note=n),
+      Job("c02.trypass" + suffix, TU, "h_trypass", replace=LOCKS, defines=d, cbmc=uw, tiers=tiers, fuc=["myth_queue_trypass"], timeout=to, mem_gb=12, note=n),
     ]
 HS = ["myth_wsqueue_rwbarrier/fence_contract", "myth_wsqueue_lock_lock/lock_contract", "myth_wsqueue_lock_unlock/unlock_contract", "env_thieves/env_thieves"]
 JOBS = seq_jobs(64, ("quick",), "", 300) + seq_jobs(131072, ("thorough",), ".full", 1800) + [
